@@ -24,6 +24,7 @@ type Engine struct {
 	GlobalInit      map[*ssa.Global]ssa.Value // constant initialisers found in init
 	Debug  bool
 	RepoDir string
+	Recorded Bindings // names recorded on the pinned tree (rename tolerance)
 }
 
 type Obligation struct {
